@@ -415,5 +415,62 @@ class PunctuatedHashes(Part):
         return res
 
 
+class Columns(Part):
+    name = "statements_across_every_column_of_long_lines"
+    desc = "a secret statement straddling column 2^k (k = 8..16) of a long line (one long filler token, as in minified JSON) at every split position for 4096 and 8192: replaced as on a short line, output independent of the secret"
+
+    STMTS = [("password {}", "text"), ("enable secret 5 {}", "md5"), ("key 7 {}", "type7"),
+             ('set system x secret "{}";', "juniper9"), ("snmp-server community {} ro", "hex")]
+
+    def __init__(self, tier, seed):
+        self.tier, self.seed = tier, seed
+
+    def cases(self):
+        return [{"P": 1 << k, "s": i} for k in range(8, 17) for i in range(len(self.STMTS))] + \
+               [{"P": p, "s": 0} for p in (1000, 10000, 8191, 8193)]
+
+    def run(self, case):
+        res = Res()
+        P = case["P"]
+        tmpl, cls = self.STMTS[case["s"]]
+        A, B = secdom.pools(cls, self.seed)[0]
+        n = len(tmpl.format(A))
+        shifts = range(1, n) if P in (4096, 8192) or self.tier == "thorough" else (2, n // 2, n - 2)
+        la, lb = [], []
+        for sh in shifts:
+            if "sh" in case and case["sh"] != sh:
+                continue
+            for lead in ('{"k":"', "description "):
+                pad = lead + "x" * max(1, P - sh - len(lead) - 1) + " "
+                la.append(pad + tmpl.format(A) + " end")
+                lb.append(pad + tmpl.format(B) + " end")
+        ga, _ = secdom.run_lines_isolated(la, "saltForTest")
+        gb, _ = secdom.run_lines_isolated(lb, "saltForTest")
+        short = secdom.run_lines_isolated(["description x " + tmpl.format(A) + " end"], "saltForTest")[0][0]
+        want_tail = short[len("description x "):] if isinstance(short, str) else None
+        for la_, lb_, oa, ob in zip(la, lb, ga, gb):
+            res.evals += 1
+            sh = P - (len(la_) - len(tmpl.format(A) + " end"))
+            rc = dict(case, sh=sh)
+            stem = "%s|column=%d" % (cls, P)
+            if isinstance(oa, tuple) or isinstance(ob, tuple):
+                if isinstance(oa, tuple) != isinstance(ob, tuple):
+                    res.violation("exception-depends-on-secret|" + stem, "%r vs %r" % (oa, ob), rc)
+                continue
+            res.nt((P, case["s"], sh))
+            res.out((oa == ob,))
+            ta, tb = oa[-(len(tmpl) + 80):], ob[-(len(tmpl) + 80):]
+            if oa != ob:
+                res.violation("output-depends-on-secret|" + stem,
+                              "statement %r starting %d characters before column %d: ...%r vs ...%r" % (tmpl, sh, P, ta[-70:], tb[-70:]), rc)
+            elif want_tail is not None and not oa.endswith(want_tail):
+                res.violation("long-line-differs-from-short-line|" + stem,
+                              "statement %r starting %d characters before column %d: ...%r, on a short line ...%r" % (
+                                  tmpl, sh, P, ta[-70:], want_tail), rc)
+        if "sh" not in case:
+            res.samples.append({"column": P, "statement": tmpl, "lines": len(la)})
+        return res
+
+
 def parts(tier, seed):
-    return [Forms(tier, seed), Standalone(tier, seed), Sequences(tier, seed), SeveralOnOneLine(tier, seed), PunctuatedHashes(tier, seed)]
+    return [Forms(tier, seed), Standalone(tier, seed), Sequences(tier, seed), SeveralOnOneLine(tier, seed), PunctuatedHashes(tier, seed), Columns(tier, seed)]
